@@ -62,14 +62,14 @@ Proof.
   apply andb_true_iff in H. destruct H as [H H3].
   apply andb_true_iff in H. destruct H as [H1 H2].
   split; [apply sutf8_valid_correct; exact H1|].
-  split; [destruct (ie_locs e); [discriminate|discriminate]|].
+  split; [destruct (ix_locs e); [discriminate|discriminate]|].
   split.
   - apply Forall_forall. intros l Hl. apply delimitsb_sound.
     rewrite forallb_forall in H3. apply H3. exact Hl.
   - destruct v.
-    + destruct (ie_vv e); [|intros; discriminate]. intros _. apply N.eqb_eq. exact H4.
+    + destruct (ix_vv e); [|intros; discriminate]. intros _. apply N.eqb_eq. exact H4.
     + apply andb_true_iff in H4. destruct H4 as [H4 H5]. split; [apply N.eqb_eq; exact H4|].
-      destruct (ie_vv e); [reflexivity|discriminate].
+      destruct (ix_vv e); [reflexivity|discriminate].
 Qed.
 
 Lemma index_okb_sound (v : bversion) (p : parsed) : index_okb v p = true -> IndexOK v p.
